@@ -821,6 +821,16 @@ class Monitor:
 _TICKETS = {}
 
 
+def resolve_tickets(cfg):
+    """cfg["tickets"] == "obtain": run the ticket-issuing first connection now (same version / chain /
+    front end) and put the store in a copy of cfg."""
+    if cfg.get("tickets") != "obtain":
+        return cfg
+    cfg = dict(cfg)
+    cfg["tickets"] = obtain_tickets({k: v for k, v in cfg.items() if k in ("version", "chain", "retry", "cc")})
+    return cfg
+
+
 def obtain_tickets(base_cfg=None):
     """Run a first connection (default schedule) and return a ticket store usable as
     cfg["tickets"] for a resuming second connection. Each call builds fresh tickets."""
